@@ -473,7 +473,7 @@ class C14(C02):
             yield self.mk(gen.render(items, final_nl=rng.random() < 0.7), "<", ">", proto.DEFAULT_CFG, "inline")
         # one removal of more than 64 KiB (and of 255 / 256 / 65535 bytes) in front of other removals: the positions of the
         # later seams are shifted by the whole length (no offset may be kept in a small integer)
-        for nbytes in quick(tier, (256, 66000), (255, 256, 257, 65535, 65536, 66000, 140000)):
+        for nbytes in quick(tier, (256, 66000), (255, 256, 257, 65535, 65536, 66000)):
             body = "x\n" * (nbytes // 2)
             d = ("K0\n<rm name='a'>\n" + body + "</rm>\nT1\n\nT2\n  <rm name='a'>y</rm>\nT3\n\n<rm name='a' unwrap-block>\n{\n    T4\n}\n</rm>\nT5\n")
             yield self.mk(d, "<", ">", proto.DEFAULT_CFG, "big-removal")
@@ -604,11 +604,11 @@ class ListBase(Base):
         lines in front of a region (also regions that begin / end on a line-break byte), line numbers of five digits,
         dozens of items, a very long line in front of a region"""
         sp = gen.Spelling()
-        for body in quick(tier, (1024, 1025, 1026, 1100), (1023, 1024, 1025, 1026, 1100, 2100, 5000)):
+        for body in quick(tier, (1024, 1025, 1026, 1100), (1023, 1024, 1025, 1026, 1100, 2100)):
             for head in quick(tier, (3,), (1, 3)):
                 src = "".join("h%d\n" % i for i in range(head)) + "<rm name='a'>\n" + "".join("b%d\n" % i for i in range(body)) + "</rm>\nz\n"
                 yield self.mk(src, "<", ">", Cfg(), "big-region")
-        for head in quick(tier, (255, 256, 257, 300), (255, 256, 257, 300, 1030, 10010)):
+        for head in quick(tier, (255, 256, 257, 300), (255, 256, 257, 300, 1030)):
             for shape in range(4):
                 pre = "".join("l%d\n" % i for i in range(head))
                 if shape == 0:
@@ -620,10 +620,10 @@ class ListBase(Base):
                 else:
                     src = pre + "<tl to='%s' unwrap-block>\n{\n  <rm name='a'>y</rm>\n}\n</tl>\n" % gen.READY_T
                 yield self.mk(src, "<", ">", Cfg(), "many-lines")
-        for n_items in quick(tier, (9, 10, 11, 65, 100), (9, 10, 11, 64, 65, 70, 100, 130, 257, 1001)):
+        for n_items in quick(tier, (9, 10, 11, 65, 100), (9, 10, 11, 64, 65, 70, 100, 130, 257)):
             src = "".join("k%d\n<rm name='a'>\nx%d\n</rm>\n" % (i, i) for i in range(n_items)) + "end\n"
             yield self.mk(src, "<", ">", Cfg(), "many-items")
-        for w in quick(tier, (1024, 4096), (1023, 1024, 4096, 9000, 70000)):
+        for w in quick(tier, (1024, 4096), (1023, 1024, 4096, 9000)):
             src = "q" * w + " <rm name='a'>x</rm> " + "r" * w + "\nz\n"
             yield self.mk(src, "<", ">", Cfg(), "long-line")
 
@@ -910,7 +910,7 @@ class C17(ListBase):
                     yield self.mk(src, "<", ">", Cfg(), "touching")
         # dozens of pending elements in front of, behind and inside a ready element (no merge loop may look a fixed number
         # of entries ahead), and the big documents of the list checks
-        for n_p in quick(tier, (64, 65, 130), (63, 64, 65, 70, 130, 300, 1000)):
+        for n_p in quick(tier, (64, 65, 130), (63, 64, 65, 70, 130, 300)):
             pend = "".join("<tl to='%s'>p%d</tl>\n" % (gen.PEND_T, i) for i in range(n_p))
             yield self.mk("a\n" + pend + "<rm name='a'>\nx\n</rm>\nz\n", "<", ">", Cfg(), "many-pending")
             yield self.mk("a\n<rm name='a'>\n" + pend + "</rm>\n" + pend + "z\n", "<", ">", Cfg(), "many-pending")
